@@ -12,13 +12,19 @@ def isFloatAtom : Atom → Bool
   | .flt _ | .scaled _ _ _ | .degrees _ => true
   | _ => false
 
-/-- **the assumption about float text** (strconv: `ParseFloat(FormatFloat(x)) = x`, the text of a scaled value holds a
-'.', the float arithmetic of the scaled path): whenever the cell-level reader reads a float piece, `parseValue` on its
-text gives the same value; and the text of a float holds neither a quote nor a `|` -/
-structure FloatOK (tp : TextParam) : Prop where
-  read : ∀ a, isFloatAtom a = true → ∀ bt isBool sc off units v,
+/-- **the assumption about float text**, for the float pieces `P` holds of (those that occur in the CSV at hand):
+strconv — `ParseFloat(FormatFloat(x)) = x`, the text of a scaled value holds a '.' — and the float arithmetic of the
+scaled path: whenever the cell-level reader reads such a piece, `parseValue` on its text gives the same value; and its
+text holds neither a quote nor a `|` -/
+structure FloatOK (tp : TextParam) (P : Atom → Prop) : Prop where
+  read : ∀ a, P a → isFloatAtom a = true → ∀ bt isBool sc off units v,
     parseAtom Arith.so a bt isBool sc off units = .ok v → parseValueT tp (tp.floatText a) bt isBool sc off units = .ok v
-  chars : ∀ a, isFloatAtom a = true → ∀ b ∈ tp.floatText a, b ≠ 34 ∧ b ≠ 124
+  chars : ∀ a, P a → isFloatAtom a = true → ∀ b ∈ tp.floatText a, b ≠ 34 ∧ b ≠ 124
+
+/-- no float piece at all: nothing is assumed -/
+theorem floatOK_of_none (tp : TextParam) (P : Atom → Prop) (h : ∀ a, P a → isFloatAtom a = false) : FloatOK tp P :=
+  { read := fun a ha hf => absurd hf (by rw [h a ha]; decide)
+    chars := fun a ha hf => absurd hf (by rw [h a ha]; decide) }
 
 /-- a piece as the text layer sees it -/
 def rawOf (tp : TextParam) (a : Atom) : Atom := .raw (atomText tp a)
@@ -114,17 +120,17 @@ theorem sim_str (tp : TextParam) (s : Txt) (bt : Nat) (isBool : Bool) (sc off : 
             exact h
 
 /-- **every piece**: what the simulation needs — the reader over the text follows the reader over the pieces -/
-theorem sim_raw (tp : TextParam) (hf : FloatOK tp) : ∀ a, Sim Arith.so (Arith.so.withText tp) (rawOf tp) a := by
-  intro a bt isBool sc off units v h
+theorem sim_raw (tp : TextParam) (P : Atom → Prop) (hf : FloatOK tp P) : ∀ a, P a → Sim Arith.so (Arith.so.withText tp) (rawOf tp) a := by
+  intro a hP bt isBool sc off units v h
   show parseAtom (Arith.so.withText tp) (.raw (atomText tp a)) bt isBool sc off units = .ok v
   rw [parseAtom_raw]
   show parseValueT tp (atomText tp a) bt isBool sc off units = .ok v
   cases a with
   | int i => exact sim_int tp i bt isBool sc off units v h
   | str s => exact sim_str tp s bt isBool sc off units v h
-  | flt b => exact hf.read _ rfl bt isBool sc off units v h
-  | scaled x s o => exact hf.read _ rfl bt isBool sc off units v h
-  | degrees x => exact hf.read _ rfl bt isBool sc off units v h
+  | flt b => exact hf.read _ hP rfl bt isBool sc off units v h
+  | scaled x s o => exact hf.read _ hP rfl bt isBool sc off units v h
+  | degrees x => exact hf.read _ hP rfl bt isBool sc off units v h
   | raw t =>
     rw [parseAtom_raw] at h
     have : Arith.so.raw t bt isBool sc off units = .unmodelled := rfl
